@@ -180,7 +180,7 @@ func init() {
 func init() {
 	reg(&propCfg{
 		ID:      "C14",
-		Pkgs:    []string{"bill", ".", "c14n", "regimes", "addons"},
+		Pkgs:    []string{"bill", ".", "c14n", "regimes", "addons", "tax"},
 		Lenient: []string{"bill", "tax", "num", "cal", "currency", "cbc", "org", "pay", ".", "head", "dsig", "c14n", "l10n", "uuid", "i18n", "schema", "regimes/...", "addons/...", "catalogues/..."},
 		Stages: []stage{
 			{Name: "L0", Harness: `^H_C05_L0_`},
